@@ -171,7 +171,7 @@ func boolNNF(info *types.Info, e ast.Expr, defs map[types.Object]localDef, neg b
 		}
 	}
 	if id, ok := e.(*ast.Ident); ok {
-		if a, ok := polyArgs[info.Uses[id]]; ok {
+		if a, ok := polyArg(info.Uses[id]); ok {
 			return boolNNF(info, a, defs, neg, depth+1)
 		}
 		switch id.Name {
